@@ -469,13 +469,17 @@ class Autoscaler(AutoscalerBase):
         if desvar_multipliers:
             for name, mult in desvar_multipliers.items():
                 # Get the design variable scaler from cached combined scalers
-                scaler = self._var_meta['design_var'][name]['total_scaler'] or 1.0
+                scaler = self._var_meta['design_var'][name]['total_scaler']
+                if scaler is None:
+                    scaler = 1.0
                 mult *= scaler / obj_scaler
 
         if con_multipliers:
             for name, mult in con_multipliers.items():
                 # Get the constraint scaler from cached combined scalers
-                scaler = self._var_meta['constraint'][name]['total_scaler'] or 1.0
+                scaler = self._var_meta['constraint'][name]['total_scaler']
+                if scaler is None:
+                    scaler = 1.0
                 mult *= scaler / obj_scaler
 
         return desvar_multipliers, con_multipliers
